@@ -49,6 +49,11 @@ def gen_spec(rng, kind):
     if kind == "int":
         lo = rng.choice([0, -10, 1])
         hi = lo + rng.choice([1, 5, 100])
+        if rng.random() < 0.15:
+            # bounds beyond 2**53 are exact ints but not exact floats
+            hi = rng.choice([2 ** 63 - 1, 2 ** 64 - 1, 2 ** 53 + 1, 10 ** 18 + 7])
+            lo = rng.choice([0, -hi])
+            return {"min": lo, "max": hi, "default": rng.choice([lo, hi, 0])}
         return {"min": lo, "max": hi, "default": rng.randint(lo, hi)}
     if kind == "float":
         lo = rng.choice([0.0, -1.5, 10])
